@@ -177,7 +177,10 @@ class ExprMixin:
         if self.spec and nm == "nan":
             return mk_float(math.nan)
         mod = st.frame.module
-        imap = extract.import_map(mod) if mod else {}
+        try:
+            imap = extract.import_map(mod) if mod else {}
+        except FileNotFoundError:
+            imap = {}            # a ghost module (contracts on callables passed as parameters)
         if nm in imap:
             ent = imap[nm]
             if ent[0] == "module":
@@ -259,6 +262,19 @@ class ExprMixin:
                     return vals.mk_fp(c) if self.fp_mode else mk_float(c)
             except Exception:  # noqa: BLE001
                 pass
+        if isinstance(value_node, ast.Call) and len(value_node.args) == 1 and not value_node.keywords \
+                and isinstance(value_node.args[0], ast.Constant) and isinstance(value_node.args[0].value, (int, float)):
+            # a module constant computed by a pure math function of a literal (e.g. ulp(0.0), sqrt(2.0)): its value
+            fn = value_node.func
+            fname = fn.attr if isinstance(fn, ast.Attribute) else getattr(fn, "id", None)
+            imap = extract.import_map(module) if module else {}
+            from_math = (isinstance(fn, ast.Attribute) and isinstance(fn.value, ast.Name) and fn.value.id == "math") or (
+                fname in imap and imap[fname][0] == "object" and imap[fname][1] == "math")
+            if from_math and fname in ("ulp", "sqrt", "log", "exp", "floor", "ceil", "fabs"):
+                c = getattr(math, fname)(value_node.args[0].value)
+                if isinstance(c, float):
+                    return vals.mk_fp(c) if self.fp_mode else mk_float(c)
+                return mk_int(c)
         if name in ("_LOGGER", "_logger", "logger", "LOGGER"):
             return BuiltinRef("$logger")
         key = f"{module}.{name}"
@@ -656,7 +672,11 @@ class ExprMixin:
             raise EngineError(f"int operator {type(op).__name__}")
 
     def binop_fp(self, st, op, a, b, node):
-        fa, fb = self.to_fp(st, a), self.to_fp(st, b)
+        if not isinstance(a.t, TFP):
+            st, a = self.int_to_fp(st, a)        # int op float: the int operand is converted first (may overflow)
+        if not isinstance(b.t, TFP):
+            st, b = self.int_to_fp(st, b)
+        fa, fb = a.z, b.z
         if isinstance(op, ast.Add):
             yield st, vals.mk_fp(z3.fpAdd(vals.RNE, fa, fb))
         elif isinstance(op, ast.Sub):
@@ -673,7 +693,44 @@ class ExprMixin:
     def to_fp(self, st, v):
         if isinstance(v.t, TFP):
             return v.z
-        raise EngineError("implicit int->fp conversion; use float_of_int model")
+        raise EngineError("implicit int->fp conversion; use int_to_fp (it may raise OverflowError)")
+
+    # 2**1024 - 2**970: the smallest magnitude whose round-to-nearest-even image is not a finite double
+    I2F_LIMIT = 2 ** 1024 - 2 ** 970
+
+    def int_to_fp(self, st, v):
+        """float(i) / the implicit conversion of an int operand in int-float arithmetic: the correctly rounded double,
+        OverflowError when it does not fit (CPython: 'int too large to convert to float')."""
+        z = coerce(v, INT).z
+        big = z3.Or(z >= self.I2F_LIMIT, z <= -self.I2F_LIMIT)
+        self.raise_(st, "OverflowError", big)
+        st = st.assume(z3.Not(big))
+        return st, vals.mk_fp(z3.fpRealToFP(vals.RNE, z3.ToReal(z), vals.FP64))
+
+    @staticmethod
+    def cmp_int_fp(op, a: V, b: V):
+        """Ordering / equality between an int and a float operand with CPython's semantics (exact, NaN unordered)."""
+        swap = isinstance(a.t, TFP)
+        f = (a if swap else b).z
+        iz = z3.simplify(coerce(b if swap else a, INT).z)
+        if z3.is_int_value(iz) and abs(iz.as_long()) <= 2 ** 53:
+            # a small integer literal is exactly representable: plain IEEE comparison
+            c = z3.FPVal(float(iz.as_long()), vals.FP64)
+            l, r = (f, c) if swap else (c, f)
+            return {ast.Lt: z3.fpLT, ast.LtE: z3.fpLEQ, ast.Gt: z3.fpGT, ast.GtE: z3.fpGEQ, ast.Eq: z3.fpEQ,
+                    ast.NotEq: lambda x, y: z3.Not(z3.fpEQ(x, y))}[type(op)](l, r)
+        i = z3.ToReal(iz)
+        fr = z3.fpToReal(f)
+        nan, pinf, ninf = z3.fpIsNaN(f), z3.And(z3.fpIsInf(f), z3.fpIsPositive(f)), z3.And(z3.fpIsInf(f), z3.fpIsNegative(f))
+        # relation "i REL f"
+        lt = z3.And(z3.Not(nan), z3.Or(pinf, z3.And(z3.Not(ninf), i < fr)))
+        gt = z3.And(z3.Not(nan), z3.Or(ninf, z3.And(z3.Not(pinf), i > fr)))
+        eq = z3.And(z3.Not(nan), z3.Not(z3.fpIsInf(f)), i == fr)
+        rel = {ast.Lt: lt, ast.LtE: z3.Or(lt, eq), ast.Gt: gt, ast.GtE: z3.Or(gt, eq), ast.Eq: eq, ast.NotEq: z3.Not(eq)}
+        if swap:     # "f REL i" is "i REL' f" with the mirrored relation
+            mirror = {ast.Lt: ast.Gt, ast.LtE: ast.GtE, ast.Gt: ast.Lt, ast.GtE: ast.LtE, ast.Eq: ast.Eq, ast.NotEq: ast.NotEq}
+            return rel[mirror[type(op)]]
+        return rel[type(op)]
 
     def seq_concat(self, st, a, b):
         a, b = unify(a, b)
@@ -771,9 +828,12 @@ class ExprMixin:
             return
         if vals.is_num(ta) and vals.is_num(tb):
             if isinstance(ta, TFP) or isinstance(tb, TFP):
-                fa, fb = self.to_fp(st, a), self.to_fp(st, b)
-                f = {ast.Lt: z3.fpLT, ast.LtE: z3.fpLEQ, ast.Gt: z3.fpGT, ast.GtE: z3.fpGEQ}[type(op)]
-                yield st, f(fa, fb)
+                if isinstance(ta, TFP) and isinstance(tb, TFP):
+                    f = {ast.Lt: z3.fpLT, ast.LtE: z3.fpLEQ, ast.Gt: z3.fpGT, ast.GtE: z3.fpGEQ}[type(op)]
+                    yield st, f(a.z, b.z)
+                    return
+                # int against float: CPython compares the exact values (no conversion of the int)
+                yield st, self.cmp_int_fp(op, a, b)
                 return
             if isinstance(ta, TFloat) or isinstance(tb, TFloat):
                 fa, fb = coerce(a, FLOAT), coerce(b, FLOAT)
@@ -858,8 +918,11 @@ class ExprMixin:
                 return
         if isinstance(a.t, (TFloat, TFP)) or isinstance(b.t, (TFloat, TFP)):
             if vals.is_num(a.t) and vals.is_num(b.t):
+                if isinstance(a.t, TFP) and isinstance(b.t, TFP):
+                    yield st, z3.fpEQ(a.z, b.z)
+                    return
                 if isinstance(a.t, TFP) or isinstance(b.t, TFP):
-                    yield st, z3.fpEQ(self.to_fp(st, a), self.to_fp(st, b))
+                    yield st, self.cmp_int_fp(ast.Eq(), a, b)
                     return
                 yield st, vals.f_eq(coerce(a, FLOAT), coerce(b, FLOAT))
                 return
